@@ -9,9 +9,8 @@ package main
 //	deepv <kind> <depth> <seed>   the same pairs as a block proof: New(nil,nil).VerifyBlockProof(1, proof)      -> ok | err | panic
 //
 // Oracles (timed, followUps of suite_c15wmpt.go): no panic; every decode within max(50 ms, 1 s per 100 kB of input), the
-// minimum of two runs, and the case run again alone before a promptness failure counts. VerifyBlockProof re-hashes the
-// whole path below every level (CalcHash leaves the dirty flag alone since fix 8a63293) — quadratic in the depth of the
-// proof: open finding C15-verifyblockproof-quadratic-in-proof-depth.
+// minimum of two runs, and the case run again alone before a promptness failure counts. (VerifyBlockProof used to re-hash
+// the whole path below every level — quadratic in the depth of the proof; fixed by 75bbdaf.)
 
 import (
 	"fmt"
@@ -25,14 +24,12 @@ import (
 func runC15Deep(ops []string) CaseResult {
 	res := CaseResult{}
 	tags := map[string]bool{}
-	onlyQ := true
 	for i, op := range ops {
 		f := strings.Fields(op)
 		kind, depth, seed := atoi(f[1]), atoi(f[2]), int64(atoi(f[3]))
 		c := cchain(rand.New(rand.NewSource(seed)), depth, kind)
 		data := marshalPairs(c.pairs, -1)
 		var out string
-		n0 := len(res.Fails)
 		switch f[0] {
 		case "deepd":
 			var loaded *wmpt.WeightedMerkleTrie
@@ -49,9 +46,6 @@ func runC15Deep(ops []string) CaseResult {
 			} else {
 				followUps(i, &res, tags, "Deserialize", loaded, data)
 			}
-			if len(res.Fails) > n0 {
-				onlyQ = false
-			}
 		case "deepv":
 			out = timed(i, &res, "VerifyBlockProof", len(data), func() string {
 				if _, _, err := wmpt.New(nil, nil).VerifyBlockProof(1, append([]byte(nil), data...)); err != nil {
@@ -59,22 +53,11 @@ func runC15Deep(ops []string) CaseResult {
 				}
 				return "ok"
 			})
-			for _, m := range res.Fails[n0:] {
-				if !strings.Contains(m, "VerifyBlockProof did not terminate promptly") && !strings.Contains(m, "VerifyBlockProof took") {
-					onlyQ = false
-				}
-			}
 		default:
 			panic("unknown op " + op)
 		}
 		tags[fmt.Sprintf("%s:kind%d:depth%d:%s", f[0], kind, depth, out)] = true
 		res.Outs = append(res.Outs, out)
-	}
-	if len(res.Fails) > 0 && onlyQ {
-		res.Finding = findC15Q
-		for k := range res.Fails {
-			res.Fails[k] = "[" + findC15Q + "] " + res.Fails[k]
-		}
 	}
 	for t := range tags {
 		res.Tags = append(res.Tags, t)
@@ -89,18 +72,14 @@ func genC15Deep(r *rand.Rand, tier string, idx int) []string {
 	depth := depths[(idx/3)%len(depths)]
 	seed := r.Intn(1 << 30)
 	ops := []string{fmt.Sprintf("deepd %d %d %d", kind, depth, seed)}
-	// the quadratic VerifyBlockProof (open finding) takes 0.7 s at depth 500, 2.4 s at 1000, 10 s at 2000, and a slow decode is
-	// measured four times: the quick tier keeps depth 100 here and reproduces the finding through its corpus replay
-	if depth <= 100 || tier == "thorough" {
-		ops = append(ops, fmt.Sprintf("deepv %d %d %d", kind, depth, seed))
-	}
+	ops = append(ops, fmt.Sprintf("deepv %d %d %d", kind, depth, seed))
 	return ops
 }
 
 func init() {
 	register(&Suite{
 		Name:        "c15deep",
-		Rule:        "hash-consistent chains of 100 / 500 / 1000 / 2000 single-child branches, one-nibble short nodes or both alternating above a value node (about 80 bytes per level), as a path export for Deserialize (followed by proofs, exports, updates and deletes on the loaded trie) and as a block proof for VerifyBlockProof (quick tier: depth 100 and the corpus replay of the open finding; all depths in the thorough tier): no panic, every decode within max(50 ms, 1 s per 100 kB of input); non-trivial = every case",
+		Rule:        "hash-consistent chains of 100 / 500 / 1000 / 2000 single-child branches, one-nibble short nodes or both alternating above a value node (about 80 bytes per level), as a path export for Deserialize (followed by proofs, exports, updates and deletes on the loaded trie) and as a block proof for VerifyBlockProof (all depths): no panic, every decode within max(50 ms, 1 s per 100 kB of input); non-trivial = every case",
 		Gen:         genC15Deep,
 		Run:         runC15Deep,
 		CaseTimeout: 5 * time.Minute,
